@@ -126,6 +126,26 @@ def hold_tree():
     _TREE_LOCK = f   # held until the process exits
 
 
+def prune_work(subdir, max_age_s=3 * 3600, keep=30):
+    """Scenario runs are cached under build/work/<engine>/<label>_<hash>; old entries are
+    dropped (older than max_age_s and beyond the newest `keep`) so the cache stays small."""
+    import shutil
+    import time
+    root = os.path.join(BUILD, "work", subdir)
+    try:
+        ds = [os.path.join(root, d) for d in os.listdir(root)]
+    except OSError:
+        return
+    ds = sorted((d for d in ds if os.path.isdir(d)), key=lambda d: os.path.getmtime(d), reverse=True)
+    now = time.time()
+    for d in ds[keep:]:
+        try:
+            if now - os.path.getmtime(d) > max_age_s:
+                shutil.rmtree(d, ignore_errors=True)
+        except OSError:
+            pass
+
+
 def sha_files(paths, extra=""):
     h = hashlib.sha256()
     h.update(extra.encode())
